@@ -94,6 +94,12 @@ func (i Info) Hash(h hash.Hash) string {
 // AppendHash is like Hash except that it appends the output string to the
 // provided byte slice.
 func (i Info) AppendHash(dst []byte, h hash.Hash) []byte {
+	// The lists are sorted below: work on copies, the receiver's slices are
+	// shared with the caller's value.
+	i.Identity = append([]info.Identity(nil), i.Identity...)
+	i.Features = append([]info.Feature(nil), i.Features...)
+	i.Form = append([]form.Data(nil), i.Form...)
+
 	// Hash identities
 	// TODO: does this match RFC 4790 § 9.3?
 	sort.Slice(i.Identity, func(a, b int) bool {
